@@ -693,7 +693,11 @@ func (vc *VC) contractCall(fr *frame, st *State, site ssa.Instruction, fc *FuncC
 	if os.Getenv("GOVC_DEBUG") != "" {
 		fmt.Fprintf(os.Stderr, "call %s in %s: allocates=%v fresh=%v targets=%v\n", fc.Key, vc.topKey, allocates, freshComps, targets)
 	}
-	vc.applyHavoc(st, targets, allocates, freshComps)
+	if fc.HavocAll {
+		vc.havocAll(st)
+	} else {
+		vc.applyHavoc(st, targets, allocates, freshComps)
+	}
 	// results
 	res := vc.freshResults(st, site, resT)
 	post := vc.contractEnv(st, oldHeap, fc, args, ptypes)
